@@ -143,7 +143,7 @@ def c14_workload(rng, tier):
                "CH4/(1-5)(2-5)(3-5)(4-6)", "CH4/(1-5", "HC4/", "C2/(1-1)", "H2//(1:mass=2,mass=2)", "Xy/", "ClNa/(1-2)", "/", "C60/" + "".join(f"({i}-{i + 1})" for i in range(1, 60)),
                "C2/(1-" + "9" * 4401 + ")", "C//(1:mass=" + "7" * 4401 + ")", "(", "C2/(1-2))"]
     # more distinct valid strings than any small cache holds, cycled by the threads
-    for k in range(2, 200 if tier == "quick" else 400):
+    for k in range(2, 170 if tier == "quick" else 400):
         s = f"C{k}/" + "".join(f"({i}-{i + 1})" for i in range(1, min(k, 6)))
         items.append({"key": f"parse|{s[:40]}|many", "op": "parse", "arg": s})
     for s in strings:
@@ -203,6 +203,12 @@ def threaded_results(items, nthreads, rng, shared_objects=True):
         mine = []
         for i in order:
             mine.append({"key": items[i]["key"], "val": c14_worker.run_item(items[i])})
+        # the many small strings again and again, each thread in its own order (re-reads while other threads bring in new ones)
+        many = [i for i in order if items[i]["key"].endswith("|many")]
+        for _ in range(3):
+            r.shuffle(many)
+            for i in many:
+                mine.append({"key": items[i]["key"], "val": c14_worker.run_item(items[i])})
         for _ in range(3):
             for key, g, k in r.sample(shared, len(shared)):
                 try:
